@@ -25,6 +25,8 @@ REQ_POST = [(b':method', b'POST'), (b':scheme', b'https'), (b':authority', b'exa
 REQ_HEAD = [(b':method', b'HEAD'), (b':scheme', b'https'), (b':authority', b'example.com'),
             (b':path', b'/h')]
 REQ_CONNECT = [(b':method', b'CONNECT'), (b':authority', b'example.com:443')]
+REQ_HOSTONLY = [(b':method', b'GET'), (b':scheme', b'https'), (b':path', b'/'),
+                (b'host', b'example.com')]
 RESP = [(b':status', b'200'), (b'server', b'x')]
 RESP204 = [(b':status', b'204')]
 RESP304 = [(b':status', b'304')]
